@@ -2,7 +2,9 @@ package harness
 
 import (
 	"crypto/sha1"
+	"encoding/binary"
 	"fmt"
+	"sort"
 
 	"github.com/jech/storrent/zzsim/refwire"
 	"github.com/jech/storrent/zzsim/simrt"
@@ -31,6 +33,15 @@ type TorSpec struct {
 	URLList   []string
 	HTTPSeeds []string
 	Torrent   []byte
+
+	// Sparse torrents are larger than 4 GiB and are never materialised:
+	// only the pieces in live have their true SHA-1 in the metainfo (the
+	// others can never be verified, so nobody can ever hold them), and
+	// content is computed on demand.
+	pad    []byte // value of an extra info key, see SpecOpts.BigInfo
+	Sparse bool
+	live   map[int]bool
+	cache  map[int][]byte
 }
 
 type SpecOpts struct {
@@ -44,11 +55,158 @@ type SpecOpts struct {
 	FileNames func(i int) []string
 	// PieceCounts, if set, is the list the piece count is drawn from
 	PieceCounts []int
+	// Huge allows (rarely) a sparse torrent that crosses the 4 GiB mark
+	Huge bool
+	// BigInfo allows an info dictionary of several 16 KiB metadata blocks
+	// (an extra key the client ignores), sometimes an exact multiple
+	BigInfo bool
+}
+
+// Live reports whether piece i can be verified (always, unless sparse).
+func (s *TorSpec) Live(i int) bool { return !s.Sparse || s.live[i] }
+
+// LivePieces lists the verifiable pieces in increasing order.
+func (s *TorSpec) LivePieces() []int {
+	var out []int
+	if !s.Sparse {
+		for i := 0; i < s.Geo.NPieces; i++ {
+			out = append(out, i)
+		}
+		return out
+	}
+	for i := range s.live {
+		out = append(out, i)
+	}
+	sort.Ints(out)
+	return out
+}
+
+// DrawOffset draws a byte offset in the torrent; in a sparse torrent mostly
+// one inside a piece that can be verified.
+func (s *TorSpec) DrawOffset(st *simrt.Stream) int64 {
+	if s.Sparse && st.Bool(7, 8) {
+		lp := s.LivePieces()
+		i := lp[st.Choice(len(lp))]
+		return int64(i)*s.Geo.PieceSize + int64(st.Choice(int(s.Geo.PieceLen(i))))
+	}
+	return int64(st.Choice(int(s.Geo.Length)))
+}
+
+// DrawPiece draws a piece index, in a sparse torrent mostly a verifiable one.
+func (s *TorSpec) DrawPiece(st *simrt.Stream) int {
+	if s.Sparse && st.Bool(7, 8) {
+		lp := s.LivePieces()
+		return lp[st.Choice(len(lp))]
+	}
+	return st.Choice(s.Geo.NPieces)
+}
+
+// Bytes returns the true torrent bytes [off, off+n).
+func (s *TorSpec) Bytes(off, n int64) []byte {
+	if !s.Sparse {
+		return s.Content[off : off+n]
+	}
+	p := make([]byte, n)
+	for o := off &^ 7; o < off+n; o += 8 {
+		w := simrt.Mix(s.Key, uint64(o>>3))
+		for j := int64(0); j < 8; j++ {
+			if o+j < off || o+j >= off+n {
+				continue
+			}
+			b := byte(w >> (8 * uint(j)))
+			switch b {
+			case 0x00:
+				b = 0x01
+			case 0xDB:
+				b = 0xDC
+			}
+			p[o+j-off] = b
+		}
+	}
+	for _, f := range s.Files {
+		if f.Pad {
+			for i := max(off, f.Offset); i < min(off+n, f.Offset+f.Length); i++ {
+				p[i-off] = 0
+			}
+		}
+	}
+	return p
+}
+
+func genSparse(st *simrt.Stream, o SpecOpts) *TorSpec {
+	s := &TorSpec{Trackers: o.Trackers, URLList: o.URLList, HTTPSeeds: o.HTTPSeeds, Sparse: true, live: map[int]bool{}, cache: map[int][]byte{}}
+	ps := simrt.Pick(st, int64(256<<10), 384<<10, 1<<20, 208<<10) // (storrent's periodic work is linear in the number of pieces: keep it in the tens of thousands)
+	first := int((int64(1)<<32 + ps - 1) / ps) // first piece that starts at or beyond 4 GiB
+	n := first + 1 + st.Choice(3)
+	length := int64(n) * ps
+	switch st.Weighted(3, 3, 2, 2) {
+	case 1:
+		length -= chunkSize * int64(1+st.Choice(int(ps/chunkSize)-1))
+	case 2:
+		length -= int64(1 + st.Choice(chunkSize-1))
+	case 3:
+		length -= int64(1 + st.Choice(int(ps)-1))
+	}
+	s.Geo = Geometry{PieceSize: ps, Length: length, NPieces: int((length + ps - 1) / ps)}
+	head := 1 + st.Choice(3)
+	for i := 0; i < head; i++ {
+		s.live[i] = true
+	}
+	for i := first - 1; i < s.Geo.NPieces; i++ {
+		s.live[i] = true
+	}
+	s.Key = uint64(7000 + st.Choice(1<<20)*8)
+	s.Name = o.Name
+	if s.Name == "" {
+		s.Name = fmt.Sprintf("torrent-%d", st.Choice(1000))
+	}
+	if o.MultiFile == 2 || (o.MultiFile == 0 && st.Bool(1, 2)) {
+		// small files over the head pieces, one file across the gap that ends
+		// somewhere in the tail pieces, small files over the rest
+		headLen := int64(head) * ps
+		tailStart := int64(first-1) * ps
+		gapEnd := tailStart + int64(st.Choice(int(length-tailStart)))
+		s.Files = genFiles(st, headLen, o.FileNames)
+		k := len(s.Files)
+		s.Files = append(s.Files, FileSpec{Path: []string{"huge.dat"}, Length: gapEnd - headLen})
+		for _, f := range genFiles(st, length-gapEnd, o.FileNames) {
+			if !f.Pad {
+				f.Path = append([]string{"tail"}, f.Path...)
+			} else {
+				f.Path = []string{".pad", fmt.Sprintf("t%d-%d", len(s.Files), f.Length)}
+			}
+			s.Files = append(s.Files, f)
+		}
+		_ = k
+		off := int64(0)
+		for i := range s.Files {
+			s.Files[i].Offset = off
+			off += s.Files[i].Length
+		}
+	}
+	s.Hashes = make([][]byte, s.Geo.NPieces)
+	for i := range s.Hashes {
+		if s.live[i] {
+			h := sha1.Sum(s.Piece(i))
+			s.Hashes[i] = h[:]
+		} else {
+			var h [20]byte
+			binary.BigEndian.PutUint64(h[:], simrt.Mix(s.Key^0x5a5a, uint64(i)))
+			binary.BigEndian.PutUint64(h[8:], simrt.Mix(s.Key^0xa5a5, uint64(i)))
+			s.Hashes[i] = h[:]
+		}
+	}
+	s.encode()
+	simrt.Probe("torrent-beyond-4GiB")
+	return s
 }
 
 func GenTorSpec(st *simrt.Stream, o SpecOpts) *TorSpec {
 	if o.MaxPieces == 0 {
 		o.MaxPieces = 8
+	}
+	if o.Huge && st.Bool(1, 12) {
+		return genSparse(st, o)
 	}
 	s := &TorSpec{Trackers: o.Trackers, URLList: o.URLList, HTTPSeeds: o.HTTPSeeds}
 	s.Geo = DrawGeometry(st, o.MaxPieces, o.Big)
@@ -81,6 +239,24 @@ func GenTorSpec(st *simrt.Stream, o SpecOpts) *TorSpec {
 		s.Hashes = PieceHashes(s.Content, s.Geo)
 	}
 	s.encode()
+	if o.BigInfo && st.Bool(1, 3) {
+		target := 16384 * (1 + st.Choice(3))
+		if st.Bool(1, 2) {
+			target += 1 + st.Choice(16383)
+		}
+		// "5:zzpad" + "<n>:" + n bytes are added; settle n so that the total is target
+		for n := target - len(s.Info); n > 0; n-- {
+			s.pad = make([]byte, n)
+			for i := range s.pad {
+				s.pad[i] = byte('a' + i%26)
+			}
+			s.encode()
+			if len(s.Info) <= target {
+				break
+			}
+		}
+		simrt.Probe(fmt.Sprintf("metadata-blocks-%d-exact-%v", (len(s.Info)+16383)/16384, len(s.Info)%16384 == 0))
+	}
 	return s
 }
 
@@ -139,6 +315,9 @@ func (s *TorSpec) encode() {
 		pieces = append(pieces, h...)
 	}
 	info["pieces"] = pieces
+	if s.pad != nil {
+		info["zzpad"] = s.pad
+	}
 	if s.Files == nil {
 		info["length"] = s.Geo.Length
 	} else {
@@ -204,6 +383,16 @@ func (s *TorSpec) encodeTorrent(info []byte) []byte {
 // Piece returns the true bytes of a piece.
 func (s *TorSpec) Piece(i int) []byte {
 	lo := int64(i) * s.Geo.PieceSize
+	if s.Sparse {
+		if c, ok := s.cache[i]; ok {
+			return c
+		}
+		c := s.Bytes(lo, s.Geo.PieceLen(i))
+		if len(s.cache) < 64 {
+			s.cache[i] = c
+		}
+		return c
+	}
 	return s.Content[lo : lo+s.Geo.PieceLen(i)]
 }
 
